@@ -12,7 +12,7 @@ PREFIX = sys.argv[1]
 TWIN = PREFIX[0] + "F"
 ALWAYS = ("test_conformer_to_lib", "test_ensemble_lib", "test_load_all", "test_loads_all")
 FROZEN = os.environ.get("SEED_ENGINE", "/tmp/verif_frozen")
-SNAP = os.environ.get("TRY_REPO", "/tmp/repo_clean")
+SNAP = os.environ.get("TRY_REPO", "/repo")
 
 
 def sh(cmd, cwd=None, env=None, timeout=1800):
@@ -90,7 +90,7 @@ if __name__ == "__main__":
         vb = "caught" if any(v["verdict"] == "FAIL" for v in jb.values()) else ("refused" if jb else "missed")
         vt = "FALSE-ALARM" if any(v["verdict"] == "FAIL" for v in jt.values()) else ("REFUSED" if jt else "silent")
         rows.append((f"{PREFIX}{i:02d}-m{m}", r["ok_breaking"], vb, sorted(jb), r["ok_twin"], vt, sorted(jt)))
-        if r["ok_breaking"]:
+        if r["ok_breaking"] and not os.path.exists(f"/verif/seeded/{PREFIX}{i:02d}-m{m}/meta.json"):
             dst = f"/verif/seeded/{PREFIX}{i:02d}-m{m}"
             os.makedirs(dst, exist_ok=True)
             for f in ("patch.diff", "demo.py", "note.md"):
